@@ -68,6 +68,7 @@ type ExtractRec struct {
 	NonEmpty  bool
 	NPkgs     int
 	NilPkg    bool
+	Panicked  bool // Extract panicked (contained by the engine or not)
 	Reads     int
 	Opens     int
 	AllocMB   int64    // growth of runtime.MemStats.Sys during the call
@@ -210,10 +211,19 @@ func (w *wrapped) Extract(ctx context.Context, input *filesystem.ScanInput) (inv
 func (w *wrapped) extract(ctx context.Context, input *filesystem.ScanInput) (inventory.Inventory, error) {
 	defer func() {
 		if r := recover(); r != nil {
-			if _, mine := r.(budgetExceeded); !mine && !scan.IsStepCap(r) && w.h.origPanic == "" {
-				w.h.origPanic = fmt.Sprintf("%v", r)
-				_, w.h.origFault = r.(interface{ Addr() uintptr })
-				w.h.origStack = string(debug.Stack())
+			if _, mine := r.(budgetExceeded); !mine && !scan.IsStepCap(r) {
+				if w.h.origPanic == "" {
+					w.h.origPanic = fmt.Sprintf("%v", r)
+					_, w.h.origFault = r.(interface{ Addr() uintptr })
+					w.h.origStack = string(debug.Stack())
+				}
+				// If the engine contains the panic (it recovers around Extract and reports it as this
+				// extractor's error for this file), the scan goes on: for the status oracle this
+				// extraction failed.
+				if w.h.cur != nil {
+					w.h.cur.Err = fmt.Sprintf("panic: %v", r)
+					w.h.cur.Panicked = true
+				}
 			}
 			panic(r)
 		}
